@@ -45,6 +45,7 @@ package ice
 //@ func (*controlledSelector).shouldSwitchSelectedPair
 //@   props C03 C20
 //@   pure
+//@   requires the-nominated-pair-exists: pair != nil
 //@   ensures none-selected: selectedPair == nil ==> result
 //@   ensures same-pair: selectedPair != nil && selectedPair == pair ==> !result
 //@   ensures C20 renomination-ignores-priority: selectedPair != nil && selectedPair != pair && nominationValue != nil ==> result
